@@ -131,6 +131,14 @@ def r15_1(run):
                             keys_w |= tk_ if tk_ is not None else {"<unknown table:%s>" % U(d.generators[0].iter)}
                     if isinstance(n, ast.Assign) and isinstance(n.targets[0], ast.Subscript) and const_str(n.targets[0].slice):
                         keys_w.add(const_str(n.targets[0].slice))
+                # the same on terms: item stores with a constant key, whatever loop / update / comprehension produced them
+                try:
+                    from ..arrnf import ANF as _ANF
+                    for e_ in _ANF(ix, td).run().stores():
+                        if len(e_.index) == 1 and e_.index[0][0] == "c" and isinstance(e_.index[0][1], str) and not e_.index[0][1].startswith("."):
+                            keys_w.add(e_.index[0][1])
+                except AnalysisError:
+                    pass
                 for n in ast.walk(fd.node):
                     if isinstance(n, ast.Subscript) and isinstance(n.ctx, ast.Load) and U(n.value) == "d" and const_str(n.slice):
                         keys_r.add(const_str(n.slice))
